@@ -56,14 +56,21 @@ func (con *Connection) EncryptedWrite(b []byte) (int, error) {
 	con.writeMutex.Lock()
 	defer con.writeMutex.Unlock()
 
+	encrypter := con.getEncrypter()
+	if encrypter == nil {
+		// The session was removed: the connection was closed
+		return 0, io.ErrClosedPipe
+	}
+
+	return con.encryptedWrite(encrypter, b)
+}
+
+// encryptedWrite encrypts bytes with the encrypter and writes them to the connection.
+// The caller holds the write mutex.
+func (con *Connection) encryptedWrite(encrypter crypto.Encrypter, b []byte) (int, error) {
 	var buffer bytes.Buffer
 	buffer.Write(b)
 	verifYield("write:pre-seal", b)
-	encrypter := con.getEncrypter()
-	if encrypter == nil {
-		// The session was removed since the caller checked for it: the connection was closed
-		return 0, io.ErrClosedPipe
-	}
 
 	encrypted, err := encrypter.Encrypt(&buffer)
 
@@ -142,11 +149,18 @@ func (con *Connection) readFrame() ([]byte, error) {
 // The written bytes are encrypted when possible.
 func (con *Connection) Write(b []byte) (int, error) {
 	verifYield("write:enter", b)
-	if con.getEncrypter() != nil {
-		return con.EncryptedWrite(b)
+	con.writeMutex.Lock()
+
+	// The encrypter is looked up once per write: the session hands out the previous
+	// encrypter for the one response which follows a (repeated) pair verify.
+	encrypter := con.getEncrypter()
+	if encrypter == nil {
+		con.writeMutex.Unlock()
+		return con.connection.Write(b)
 	}
 
-	return con.connection.Write(b)
+	defer con.writeMutex.Unlock()
+	return con.encryptedWrite(encrypter, b)
 }
 
 // Read reads bytes from the connection. The read bytes are decrypted when possible.
